@@ -1558,6 +1558,8 @@ int read_task_event(struct uftrace_task_reader *task, struct uftrace_record *rec
  */
 int read_task_ustack(struct uftrace_data *handle, struct uftrace_task_reader *task)
 {
+	struct uftrace_record prev = task->ustack;
+
 	if (task->valid)
 		return 0;
 
@@ -1581,6 +1583,8 @@ int read_task_ustack(struct uftrace_data *handle, struct uftrace_task_reader *ta
 
 		/* the payload is cut short: the task's data ends before this record */
 		if (ret < 0 && feof(task->fp)) {
+			/* task->rstack may still point to task->ustack: keep the last complete record */
+			task->ustack = prev;
 			task->done = true;
 			return -1;
 		}
